@@ -67,6 +67,11 @@ def main():
                 sh('/venv/bin/python harness/extract.py', '/verif')     # Generated/* back to the real tree
                 for c, txt in saved.items():                           # evidence files describe the real tree only
                     open('/verif/evidence/%s.json' % c, 'w').write(txt)
+    if os.environ.get('SEED_MERGE') and os.path.exists(os.path.join('/verif/seeded', name, 'meta.json')):
+        # further checks against an already evaluated change: keep the earlier results
+        old = json.load(open(os.path.join('/verif/seeded', name, 'meta.json')))
+        merged = dict(old.get('results', {})); merged.update(results); results = merged
+        meta['checks_run'] = sorted(set(old.get('checks_run', [])) | set(checks))
     meta['results'] = results
     caught = [k for k, v in results.items() if v['exit'] == 1]
     with_input = [k for k, v in results.items() if any(x.get('found_failing_input') for x in v['violations'])]
